@@ -3,19 +3,44 @@ package main
 import (
 	"fmt"
 	"os"
-
-	"golang.org/x/tools/go/packages"
-	"golang.org/x/tools/go/ssa"
-	"golang.org/x/tools/go/ssa/ssautil"
 )
 
 func main() {
-	cfg := &packages.Config{Mode: packages.LoadAllSyntax, Dir: "/repo", Env: append(os.Environ(), "GOFLAGS=", "GOWORK=/repo/go.work")}
-	pkgs, err := packages.Load(cfg, "github.com/samber/ro")
+	if len(os.Args) < 2 {
+		fmt.Fprintln(os.Stderr, "usage: rovc dump|gen ...")
+		os.Exit(2)
+	}
+	switch os.Args[1] {
+	case "dump":
+		cmdDump(os.Args[2:])
+	case "gen":
+		cmdGen(os.Args[2:])
+	default:
+		fmt.Fprintln(os.Stderr, "unknown command")
+		os.Exit(2)
+	}
+}
+
+func cmdDump(args []string) {
+	pkg := roPath
+	w, err := loadWorld("/repo", []string{pkg})
 	if err != nil {
 		panic(err)
 	}
-	prog, spkgs := ssautil.AllPackages(pkgs, ssa.BuilderMode(0))
-	prog.Build()
-	fmt.Println(len(spkgs), spkgs[0].Pkg.Path())
+	fns := w.allFuncs(pkg)
+	if len(args) == 0 {
+		for _, k := range sortedKeys(fns) {
+			fmt.Println(k)
+		}
+		return
+	}
+	for _, a := range args {
+		fn := fns[a]
+		if fn == nil {
+			fmt.Println("no such function", a)
+			continue
+		}
+		fn.WriteTo(os.Stdout)
+	}
 }
+
